@@ -1,6 +1,7 @@
 import RxModel.GenTie.Delay
 import RxModel.GenTie.ObserveOn
 import RxModel.GenTie.Debounce
+import RxModel.GenTie.Throttle
 import RxModel.Sched.Chain
 /-! Forward simulations: the GENERATED observers of delay / observe_on / debounce (src/ops/{delay,observe_on,debounce}.rs)
     against the stages of the chain model (`Stage.onNotif` of Sched/Chain.lean).  A step of the code yields a new state
@@ -156,4 +157,88 @@ theorem sim_Debounce_error (g : DebounceObserver) (st : Stage) (hr : RDebounce g
     exact ⟨_, _, tie_Debounce_error _ e, by simp [Stage.onNotif, notifsOf, applyEvs], by simp [RDebounce, Stage.onNotif]⟩
 
 end debounce
+end Rx.GenTie
+
+namespace Rx.GenTie
+open Rx Rx.T
+
+section throttle
+open Rx.Gen.Throttle
+
+/-- the scheduler effects of throttle's events -/
+def applyEvsT (j : Nat) : Rs.Out → Sched → Sched
+  | [], s => s
+  | Rs.Ev.sched "throttle_task" [] d _ :: r, s => applyEvsT j r (s.scheduleOnce (.throttle j) d).1
+  | Rs.Ev.unsub k :: r, s => applyEvsT j r (s.cancel k)
+  | _ :: r, s => applyEvsT j r s
+
+def edgeOf (e : ThrottleEdge) : Option Edge :=
+  match e.leading, e.tailing with
+  | true, true => some .all
+  | true, false => some .leading
+  | false, true => some .trailing
+  | false, false => none
+
+/-- the throttle observer read as the `throttle` stage (a constant window `d`, one of the three edge modes) -/
+def RThrottle (d : Nat) (g : ThrottleObserver) (st : Stage) : Prop :=
+  (∀ v, g.duration_selector v = d) ∧
+  ∃ e, edgeOf g.edge = some e ∧ st = .throttle d e g.observer.isSome g.trailing_value (g.task_handler.map (·.id))
+
+/-- an item: inside an open window only the candidate is replaced (trailing modes); with the window over, the leading
+    item goes out, the candidate is cleared / set, and — after the emission (`afterEmit`) — ONE window task is scheduled -/
+theorem sim_Throttle_next (d : Nat) (g : ThrottleObserver) (st : Stage) (hr : RThrottle d g st) (j : Nat) (s : Sched)
+    (v : Val) (h : Rs.Sub) (c : Nat → Bool) (hh : h.id = s.tasks.length)
+    (hc : ∀ t, g.task_handler = some t → c t.id = s.handleClosed t.id) :
+    ∃ g' out, ThrottleObserver.next g v h c = some (g', out) ∧
+      (let r := st.onNotif j (.next v) s
+       let r2 := r.1.afterEmit j r.2.2
+       r.2.1 = notifsOf out ∧ r2.2 = applyEvsT j out s ∧ RThrottle d g' r2.1) := by
+  obtain ⟨hd, e, he, rfl⟩ := hr
+  rcases g with ⟨sc, o, ⟨t, l⟩, ds, tv, th⟩
+  simp only at hd
+  have hedge : l = true ∨ t = true := by
+    cases t <;> cases l <;> simp [edgeOf] at he ⊢
+  cases th with
+  | none =>
+    have hw : windowOver ⟨sc, o, ⟨t, l⟩, ds, tv, none⟩ c = true := rfl
+    refine ⟨_, _, tie_Throttle_next_over _ v h c hedge hw, ?_⟩
+    cases t <;> cases l <;> simp [edgeOf] at he <;> subst he <;> cases o <;>
+      simp [Stage.onNotif, Stage.afterEmit, notifsOf, applyEvsT, RThrottle, edgeOf, Edge.hasLeading,
+        Edge.hasTrailing, Sched.scheduleOnce, hd, hh]
+  | some tt =>
+    have hct : c tt.id = s.handleClosed tt.id := hc tt rfl
+    cases hcl : s.handleClosed tt.id with
+    | true =>
+      have hw : windowOver ⟨sc, o, ⟨t, l⟩, ds, tv, some tt⟩ c = true := by simp [windowOver, hct, hcl]
+      refine ⟨_, _, tie_Throttle_next_over _ v h c hedge hw, ?_⟩
+      cases t <;> cases l <;> simp [edgeOf] at he <;> subst he <;> cases o <;>
+        simp [Stage.onNotif, Stage.afterEmit, hcl, notifsOf, applyEvsT, RThrottle, edgeOf, Edge.hasLeading,
+          Edge.hasTrailing, Sched.scheduleOnce, hd, hh]
+    | false =>
+      have hw : windowOver ⟨sc, o, ⟨t, l⟩, ds, tv, some tt⟩ c = false := by simp [windowOver, hct, hcl]
+      refine ⟨_, _, tie_Throttle_next_open _ v h c hedge hw, ?_⟩
+      cases t <;> cases l <;> simp [edgeOf] at he <;> subst he <;>
+        simp [Stage.onNotif, Stage.afterEmit, hcl, notifsOf, applyEvsT, RThrottle, edgeOf, Edge.hasLeading,
+          Edge.hasTrailing, hd]
+
+theorem sim_Throttle_complete (d : Nat) (g : ThrottleObserver) (st : Stage) (hr : RThrottle d g st) (j : Nat) (s : Sched) :
+    ∃ g' out, ThrottleObserver.complete g = some (g', out) ∧
+      (st.onNotif j .complete s).2.1 = notifsOf out ∧ (st.onNotif j .complete s).2.2 = applyEvsT j out s ∧
+      RThrottle d g' (st.onNotif j .complete s).1 := by
+  obtain ⟨hd, e, he, rfl⟩ := hr
+  rcases g with ⟨sc, _ | o, ed, ds, _ | tv, _ | th⟩ <;>
+    exact ⟨_, _, tie_Throttle_complete _, by simp [Stage.onNotif, notifsOf], by simp [Stage.onNotif, applyEvsT],
+      ⟨hd, e, he, by simp [Stage.onNotif]⟩⟩
+
+theorem sim_Throttle_error (d : Nat) (g : ThrottleObserver) (st : Stage) (hr : RThrottle d g st) (j : Nat) (s : Sched)
+    (er : Err) :
+    ∃ g' out, ThrottleObserver.error g er = some (g', out) ∧
+      (st.onNotif j (.error er) s).2.1 = notifsOf out ∧ (st.onNotif j (.error er) s).2.2 = applyEvsT j out s ∧
+      RThrottle d g' (st.onNotif j (.error er) s).1 := by
+  obtain ⟨hd, e, he, rfl⟩ := hr
+  rcases g with ⟨sc, _ | o, ed, ds, tv, _ | th⟩ <;>
+    exact ⟨_, _, tie_Throttle_error _ er, by simp [Stage.onNotif, notifsOf], by simp [Stage.onNotif, applyEvsT],
+      ⟨hd, e, he, by simp [Stage.onNotif]⟩⟩
+
+end throttle
 end Rx.GenTie
